@@ -25,6 +25,9 @@ import (
 // zzMarshal is the engine-side stand-in for (*ProtoNode).marshalImmutable: injective in (data incl. nil-ness,
 // links in Links() order: name, Tsize, CID).
 func zzMarshal(n *ProtoNode) (*immutableProtoNode, error) {
+	if zzRealCodec {
+		return n.marshalImmutable()
+	}
 	links := n.Links()
 	out := []byte{0xD0}
 	var tmp [8]byte
